@@ -121,4 +121,7 @@ if new:
     res["replay_lines"] = ["# go run -race harness/c29race --seed %s (schedule dependent)" % seed] + ["# " + k for k in sorted(new)][:20]
 elif races:
     res["what"] += "; known races seen: " + "; ".join(sorted(races))[:300]
+res["replay_lines"] = res.get("replay_lines") or []
+if res.get("nonlinearizable"):
+    res["replay_lines"] = ["# c29race --seed %s : non-linearizable single-section history (schedule dependent)" % seed] + ["# " + x[:2000] for x in res["nonlinearizable"][:2]]
 print(json.dumps({k: res[k] for k in ("ok", "evaluations", "distinct_nontrivial", "what", "found", "replay_lines", "counters") if k in res}))
